@@ -12,8 +12,19 @@ unbound, static and class methods, builtins, classes, sets -- at top level and
 below lists, dicts and objects; objects of classes made by the library's class
 factories (pg.functor, pg.symbolize, pg.wrap(eq=True)); and library classes
 (hyper primitives, and the classes that override a sym_* comparison method:
-pg.Ref, CustomDecisionPoint).  The pool is built twice (X and Y, independent
-constructions) so that the identity short cut of pg.eq does not hide anything.
+pg.Ref, CustomDecisionPoint); callable objects (functools.partial shared by
+name / built anew, instances with __call__ compared by identity or by value);
+opaque leaves, i.e. every other non-symbolic value, which ends in the fall-back
+branches of eq / lt / hash (by what the leaf's own type offers: == / hash / <,
+== only, identity only; types whose == reaches across types: Fraction,
+pg.KeyPath, bytes / bytearray); typed missing values; values that hold a
+Python-unhashable leaf below every kind of symbolic parent (they have no hash:
+pg.hash, sym_hash and hash() must agree on that, and where they answer, equal
+values hash equal); the targets of the references next to the references
+(object, symbolic dict, symbolic list as target), at top level and below plain
+containers; tuples with non-number elements.  The pool is built twice (X and
+Y, independent constructions) so that the identity short cut of pg.eq does not
+hide anything.
 All ordered pairs and all triples are checked through the pair tables; the
 thorough tier adds seeded random nestings.  A third driver checks the same
 laws on values that have been *mutated* (every mutator, every notification
@@ -22,9 +33,16 @@ mode, after every observer has been used, in place or on a copy).
 The oracles are the laws of the statement.  The only extra reference is a
 structural model of the *pool* (the same expressions evaluated with plain
 Python stand-ins) which says which pool values denote the same value; it has
-no verdict for values that hold functions / methods / references (the
-statement does not say when two functions are the same value; for them only
-the laws are checked).
+no verdict for values that hold functions / methods / callable objects /
+references / leaves compared by identity (the statement does not say when two
+functions are the same value; for them only the laws are checked).
+
+Case ids: <law>/<input class of the pair>.  The class is, in this order: a
+structural class found at aligned positions (tuple-elements, permuted-dict-keys,
+same-qualname-classes, typed-missing-different-specs), else the special leaf
+kind(s) of the first aligned pair that holds one (`<kind>-leaves`), else the
+kinds of the two values.  Triples and sorted samples get the one class picked
+by `_pick` from the classes of their pairs.
 """
 import enum
 import fractions
@@ -78,7 +96,8 @@ _PARTS = {
     'W': ("@pg.symbolize\nclass W:\n  def __init__(self, x, y=0): self.x = x\n"
           "class _K:\n  def __init__(self, x, y=0): self.x = x\nWE = pg.wrap(_K, eq=True)\n"),
     # referenced values (pg.Ref compares its target by identity).
-    'R': "r_1, r_2, r_3 = A(1), A(1), A(2)\nr_d, r_l = pg.Dict(k=1), pg.List([1])\n",
+    'R': "r_1, r_2, r_3 = A(1), A(1), A(2)\n",
+    'RC': "r_d, r_l = pg.Dict(k=1), pg.List([1])\n",
     # a class with typed fields (mutation driver).
     'T': ("@pg.members([('n', pg.typing.Int(default=0)), ('tags', pg.typing.List(pg.typing.Int(), default=[])),\n"
           "  ('sub', pg.typing.Dict([('u', pg.typing.Int(default=1)), ('w', pg.typing.Any(default=None))]))])\n"
@@ -94,7 +113,7 @@ _PART_NAMES = {
     'N': ('N',), 'L': ('L1', 'L2'), 'PD': ('PD',),
     'FN': ('f_add1', 'f_add2', 'f_mul', 'g_a', 'g_b', 'g_k1', 'g_k2', 'c_1', 'c_2', 'p_1'),
     'H': ('H', 'h1', 'h2'), 'F': ('F',), 'W': ('W', 'WE', '_K'),
-    'R': ('r_1', 'r_2', 'r_3', 'r_d', 'r_l'),
+    'R': ('r_1', 'r_2', 'r_3'), 'RC': ('r_d', 'r_l'),
     'T': ('T',),
 }
 _NEEDS_F = ('A', 'A2', 'B', 'C', 'N', 'L')
@@ -185,6 +204,8 @@ POOL = [
     '[functools.partial(g_k1, k=2), 0]', '[functools.partial(g_k1, k=2), 1]',
     'pg.Dict(f=functools.partial(g_k1, k=2))', 'A(CB(1))', 'A(CE(1))',
     'C(CE(1), 0)', 'C(CE(1), 1)',
+    # two distinct classes of the same qualified name, as values.
+    'L1', 'L2', 'A(L1)', 'A(L2)',
     # -- opaque leaves: every other value that is neither symbolic nor one of
     #    the documented primitive kinds ends in the same fall-back branches of
     #    eq / lt / hash.  By what their own type offers: ==, hash and < (V);
@@ -411,6 +432,16 @@ def _special_kinds(v, depth=0):
   return out
 
 
+def _holds_mixed_tuple(v, depth=0):
+  """True if v holds a tuple whose elements are not all numbers."""
+  if isinstance(v, tuple) and not all(isinstance(x, _NUM) for x in v):
+    return True
+  ch = _children(v)
+  if ch and depth < 8:
+    return any(_holds_mixed_tuple(c, depth + 1) for c in ch.values())
+  return False
+
+
 # Structural input classes of a pair (found at aligned positions), and the
 # order in which one label is picked when several apply (one defect, one id).
 _STRUCT = ('tuple-elements', 'permuted-dict-keys', 'same-qualname-classes',
@@ -557,10 +588,16 @@ def _opted_in(v):
 # ---------------------------------------------------------------------------
 
 _LEAVES = ['None', 'True', '0', '1', '2', '1.0', '0.5', "'a'", "'b'", "''"]
-# the thorough tier also nests the special leaf kinds at random positions.
-_LEAVES_THOROUGH = _LEAVES * 2 + [
-    'f_add1', 'h1.m1', 'p_1', 'functools.partial(g_k1, k=2)', 'CE(1)', '{1}', 'frozenset({1})',
-    'V(1)', 'U(1)', 'P()', 'E.a', 'fractions.Fraction(2, 1)', 'bytearray([97])', 'pg.Ref(r_1)']
+# the thorough tier also nests the special leaf kinds at random positions: one
+# kind per expression, so that the input class of a pair stays one kind.
+_LEAF_FAMILIES = [
+    ['f_add1', 'f_add2', 'h1.m1', 'p_1', 'functools.partial(g_k1, k=2)', 'CE(1)'],
+    ['{1}', '{2}', 'frozenset({1})'],
+    ['V(1)', 'V(2)'],
+    ['U(1)', 'U(2)', 'P()', 'E.a'],
+    ['fractions.Fraction(2, 1)', 'fractions.Fraction(1, 2)', 'bytearray([97])', 'bytes([97])'],
+    ['pg.Ref(r_1)', 'pg.Ref(r_2)'],
+]
 
 
 def _rand_expr(r, depth, leaves=None):
@@ -624,7 +661,10 @@ def _pool(tier, seed):
   tries = 0
   while len(exprs) < len(POOL) + extra and tries < 20 * extra:
     tries += 1
-    e = _rand_expr(r, depth, _LEAVES if tier == 'quick' else _LEAVES_THOROUGH)
+    leaves = _LEAVES
+    if tier != 'quick' and r.random() < 0.5:
+      leaves = _LEAVES * 2 + r.choice(_LEAF_FAMILIES) * 2
+    e = _rand_expr(r, depth, leaves)
     if e not in seen and _constructible(e):
       seen.add(e)
       exprs.append(e)
@@ -893,15 +933,22 @@ def drv_sort(tier, seed):
   # Values that hold a special leaf kind (callable, set, ...) are sampled in
   # dedicated samples (one kind at a time, mixed with ordinary values) under an
   # id of their own, so that a defect of one leaf kind never hides the others.
-  sk = {id(v): frozenset(_special_kinds(v)) for _, v in short}
+  # The values that hold a tuple with non-number elements form a family of
+  # their own (whatever leaves they hold).
+  fams = SPECIAL_KINDS + ('tuple-elements',)
+  sk = {id(v): frozenset({'tuple-elements'} if _holds_mixed_tuple(v) else _special_kinds(v))
+        for _, v in short}
   calm = [ev for ev in short if not sk[id(ev[1])]]
-  family = {k: [ev for ev in short if sk[id(ev[1])] == {k}] for k in SPECIAL_KINDS}
+  family = {k: [ev for ev in short if sk[id(ev[1])] == {k}] for k in fams}
 
   byexpr = {e: v for e, v in zip(exprs, xs)}
   fixed = [list(p) for p in itertools.permutations(
       ["[{'b': 2, 'a': 1}]", "[{'a': 1, 'b': 2}, 1]", "[{'a': 1, 'c': 0}]"])]
   fixed += [list(p) for p in itertools.permutations(["{'a': 1, 'b': 2}", "{'b': 2, 'a': 1}", "{'a': 1, 'b': 3}"])]
   fixed += [list(p) for p in itertools.permutations(['1', 'True', '1.0', '[1]', 'pg.List([1])'], 4)]
+  fixed += [list(p) for p in itertools.permutations(['[2]', "['a']", '[fractions.Fraction(2, 1)]'])]
+  fixed += [['pg.typing.MissingValue(pg.typing.Int())', '0', 'pg.typing.MissingValue(pg.typing.Str())'],
+            ['(1,)', '(r_1,)'], ['bytes([97])', 'bytearray([97])', "'a'", 'bytes([98])']]
   fixed += [['None', '1', 'None'], ['pg.MISSING_VALUE', '0', 'pg.MISSING_VALUE'], ['L1(1)', 'L2(1)'], ['A(1)', 'L2(1)', 'L1(1)'],
             ['None', 'pg.MISSING_VALUE', 'False', "''", '[]', '()', '{}', 'A(None)', 'A.partial()']]
 
@@ -909,8 +956,8 @@ def drv_sort(tier, seed):
     fam = None
     if t < len(fixed):
       sample = [(e, byexpr[e]) for e in fixed[t]]
-    elif t % 8 == 7 and family[SPECIAL_KINDS[(t // 8) % len(SPECIAL_KINDS)]]:
-      fam = SPECIAL_KINDS[(t // 8) % len(SPECIAL_KINDS)]
+    elif t % 8 == 7 and family[fams[(t // 8) % len(fams)]]:
+      fam = fams[(t // 8) % len(fams)]
       size = r.randrange(2, 9)
       sample = [r.choice(family[fam]) for _ in range(2)] + [
           r.choice(family[fam] if r.random() < 0.5 else calm) for _ in range(size - 2)]
@@ -963,7 +1010,8 @@ def drv_sort(tier, seed):
     lab = _multi_label([v for _, v in sample])
     if fam:
       # the ordinary values of the sample may hold a pair of a structural class.
-      lab = lab if lab in _STRUCT else f'{fam}-leaves'
+      if fam == 'tuple-elements' or lab not in _STRUCT:
+        lab = fam if fam in _STRUCT else f'{fam}-leaves'
     elif not _is_special(lab):
       lab = 'general'      # one id per defect; the pair/triple tables localise by kind.
     rec.case(f'sort.never-raises/{lab}', key, True)
